@@ -45,7 +45,7 @@ structure GoodGener (f : Nat → FieldSpec) (ftime frate fenth : FieldSpec) (g :
   block : GoodName g.block
   nameLen : g.name.length = 5
   nameNl : '\n' ∉ unfixBlockname g.name
-  ltabInt : ∃ k : Int, g.ltab = .int k
+  ltabInt : g.ltab = .none ∨ ∃ k : Int, g.ltab = .int k
   ltabKeep : canonV (f 5) g.ltab = g.ltab
   typeKeep : canonV (f 7) g.type = g.type
   itabStr : ∃ s, g.itab = .str s
@@ -107,15 +107,18 @@ theorem gener_header {r rt rr re : Rec} {f : Nat → FieldSpec} {ftime frate fen
   exact hrd
 
 
-theorem tableTimes_total (g : Gener) (hl : ∃ k : Int, g.ltab = .int k) :
+theorem tableTimes_total (g : Gener) (hl : g.ltab = .none ∨ ∃ k : Int, g.ltab = .int k) :
     ∃ tt, tableTimes g.ltab g.type = .ok tt ∧
       tableLen g = (match tt with | some k => if k ≤ 1 then 0 else k | none => 0) := by
-  obtain ⟨k, hk⟩ := hl
-  unfold tableLen tableTimes
-  rw [hk]
-  by_cases h : ((Val.int k).truthy && g.type != .str c!"DELV") = true
-  · simp only [h, if_true]; exact ⟨_, rfl, rfl⟩
-  · simp only [h, Bool.false_eq_true, if_false]; exact ⟨_, rfl, rfl⟩
+  rcases hl with hn | ⟨k, hk⟩
+  · unfold tableLen tableTimes
+    rw [hn]
+    exact ⟨none, rfl, rfl⟩
+  · unfold tableLen tableTimes
+    rw [hk]
+    by_cases h : ((Val.int k).truthy && g.type != .str c!"DELV") = true
+    · simp only [h, if_true]; exact ⟨_, rfl, rfl⟩
+    · simp only [h, Bool.false_eq_true, if_false]; exact ⟨_, rfl, rfl⟩
 
 theorem chunk_count (k : Nat) : (k + 4 - 1) / 4 = (k + 3) / 4 := by
   have : k + 4 - 1 = k + 3 := by omega
